@@ -2,11 +2,13 @@ package main
 
 import (
 	"fmt"
+	"reflect"
 	"runtime"
 	"strconv"
 	"strings"
 	"sync"
 	"time"
+	"unsafe"
 
 	"github.com/lixianmin/got/cachex"
 	"github.com/lixianmin/got/loom"
@@ -226,6 +228,21 @@ func sleepUntil(target time.Time) {
 	}
 }
 
+// innerOf returns the object embedded in the wrapper NewCache hands out (the wrapper carries the finalizer; methods
+// promoted from the embedded pointer run with the inner object as receiver), without keeping the wrapper reachable.
+func innerOf(c cachex.Cache) cachex.Cache {
+	v := reflect.ValueOf(c)
+	if v.Kind() != reflect.Ptr || v.Elem().Kind() != reflect.Struct || v.Elem().NumField() != 1 || v.Elem().Field(0).Kind() != reflect.Ptr {
+		return nil // not the wrapper shape: later calls of the script fail visibly
+	}
+	f := v.Elem().Field(0)
+	in, ok := reflect.NewAt(f.Type().Elem(), unsafe.Pointer(f.Pointer())).Interface().(cachex.Cache)
+	if !ok {
+		return nil
+	}
+	return in
+}
+
 func newCache(sc *script) cachex.Cache {
 	if sc.hasOpts {
 		return cachex.NewCache(sc.opts...)
@@ -371,7 +388,9 @@ func runTrialOn(sc *script, cache cachex.Cache, start time.Time) string {
 			case "D":
 				mu.Lock()
 				emit("c,%d,%d", i, stamp())
-				cache = nil
+				// the script drops the object NewCache returned; calls it makes afterwards go to the inner object, as a
+				// call does that was already running (its receiver is the inner object) when the handle was dropped
+				cache = innerOf(cache)
 				mu.Unlock()
 				collect()
 				mu.Lock()
